@@ -142,11 +142,14 @@ class Model:
                 out.append(n[1])
             elif k == "ph":
                 pass  # dependency placeholder: replaced by the generated tags, which the oracle strips
-            elif k == "var":
-                out.append(self.to_str(env.lookup(n[1])))
-            elif k == "varf":
-                self.event("filter:" + n[2])
-                out.append(self.to_str(env.lookup(n[1])))
+            elif k in ("var", "varf"):
+                if k == "varf":
+                    self.event("filter:" + n[2])
+                v = env.lookup(n[1])
+                if isinstance(v, DefaultRef):
+                    v.thunk(out)  # a `default=` alias read as a plain variable renders the slot's default content
+                else:
+                    out.append(self.to_str(v))
             elif k == "if":
                 if truthy(env.lookup(n[1], False)):
                     self.render_nodes(n[2], env, owner, prov, out, ck)
@@ -193,9 +196,11 @@ class Model:
                 v = env.lookup(n[1], None)
                 out.append(self.to_str(v.get(n[2], "")) if isinstance(v, dict) else "")
             elif k == "alias_default":
-                v = env.lookup(n[1], None)
+                v = env.lookup(n[1])
                 if isinstance(v, DefaultRef):
                     v.thunk(out)
+                else:
+                    out.append(self.to_str(v))  # the alias name is shadowed by an inner binding: an ordinary variable read
             elif k == "fill":
                 # a fill tag rendered outside fill discovery
                 raise ModelError("TemplateSyntaxError", "fill outside component body")
@@ -209,7 +214,7 @@ class Model:
             return "True"
         if v is False:
             return "False"
-        if isinstance(v, list):
+        if isinstance(v, (list, dict)):
             return str(v).replace("'", "&#x27;")
         if isinstance(v, DefaultRef):
             tmp = []
@@ -420,7 +425,7 @@ class Model:
         if al:
             fenv = fenv.push("alias", al)
         # which component key the real context carries while the fill renders (decides root vs deferred only)
-        if self.mode == "isolated":
+        if self.mode == "isolated" or f.only:
             fck = f.ck
         else:
             fck = f.ck if f.ck is not None else ck
